@@ -49,6 +49,11 @@ CLAIMED["C01"] = dict(
    note="Trusted: Coq kernel; goextract (chunk limit, type/opcode constants, FromVersion); extraction + OCaml driver; io.TeeReader/bytes.Buffer/io.ReadFull. strconv.ParseFloat is modelled as a syntactic check of decimal floats (float_ok; hexadecimal floats and the range error are not modelled: Redis writes %.17g of finite doubles). Module value types 6/7 are rejected by the code and are outside the property. PARTIAL: split hashes (> 16 MiB) are not covered by the theorem.",
    technique="Coq proof (exactness of parser combinators, induction over the file syntax) + regenerated constants + differential run on generated files",
    design="DESIGN.md section 5, C01")
+CLAIMED["C12"] = dict(
+   text="Theorems in coq/Props/C12.v (closed, no axioms): DecodeDump(EncodeDump v) = v for every string, list, set, hash and sorted set (same elements, same order; arbitrary bytes; integer-looking strings take the int8/16/32 form only when the decimal rendering is exact; lengths in the 6/14/32-bit forms; scores as IEEE bits through the text conversion under one stated law, NaN canonicalised, +-inf by their codes) - proved by exactness of the decoder on the encoder's output; the tool's decoder returns the logical element for every ziplist entry form Redis writes (6/14/32-bit strings, int16/32/64/24/8, immediates, 1-/5-byte prevlen), for whole ziplists and for intsets of 16/32/64 bits, as generated by Coq spec encoders of those formats. Zipmap deviations (items >= 253 bytes, >= 254 entries) are recorded findings with computed witnesses. Differential run: 1500 logical values through rdb.EncodeDump/DecodeDump (payload bytes and result), 1200 compact encodings (ziplist list/hash/zset, intset, zipmap, quicklist, zset2, raw or LZF-wrapped) through DecodeDump, 200 object sequences through rdb.NewEncoder + Loader + ObjEntry, vs the extracted model and the original values.",
+   note="Trusted: Coq kernel; extraction + OCaml driver (which supplies Printf %.17g / float_of_string as the two float conversions; their agreement with Go's strconv on every generated score is checked by the byte-level comparison of payloads); goextract; the external github.com/cupcake/rdb encoder is third-party code outside /repo (modelled, exercised, not mutable). PARTIAL: the whole-file round trip is decided by C01's theorem (parser exact on every spec-encoded file) plus the differential run on the tool's own writer; the equation 'writer output = spec encoding' is not proved. ziplists announcing 65535 entries (zllen unknown) are excluded by hypothesis.",
+   technique="Coq proof (encoder/decoder exactness, per-format lemmas) + differential run on values, compact encodings and files",
+   design="DESIGN.md section 5, C12")
 NOT_YET = {}
 props = [json.loads(l) for l in open(os.path.join(V, "properties.jsonl"))]
 hooks = subprocess.run(["git", "-C", "/repo", "log", "--format=%H %s"], capture_output=True, text=True).stdout.strip().split("\n")
